@@ -668,13 +668,21 @@ func c11RunCase(ctx *Ctx, idx int, hostile bool) {
 		// the daemon evaluates the curves from one goroutine per fan: every curve, from three goroutines at once
 		if idx%4 == 1 && len(cfg.Curves) > 0 {
 			var wg sync.WaitGroup
-			msgs := make([]string, 3)
-			for g := 0; g < 3; g++ {
+			// (function curves evaluate shared members: more goroutines and rounds there - an unsynchronised access shows as
+			// a runtime abort only when two of them really overlap)
+			ng, nk := 3, 40
+			for _, cc := range cfg.Curves {
+				if cc.Function != nil {
+					ng, nk = 4, 120
+				}
+			}
+			msgs := make([]string, ng)
+			for g := 0; g < ng; g++ {
 				wg.Add(1)
 				go func(g int) {
 					defer wg.Done()
 					_, msgs[g] = Guard(func() {
-						for k := 0; k < 40; k++ {
+						for k := 0; k < nk; k++ {
 							for _, cc := range cfg.Curves {
 								if c, ok := curves.GetSpeedCurve(cc.ID); ok {
 									_, _ = c.Evaluate()
